@@ -175,6 +175,9 @@ enum Start {
     NoRecord,
     RecordThenInputChanged,
     RecordThenOutputDeleted,
+    /// a valid record exists; during the faulty cycle an input command cannot run (its state cannot be computed);
+    /// afterwards the tree is put back exactly as recorded
+    RecordThenInputCommandBroken,
 }
 
 fn prepare(l: &Layout, root: &Path, start: Start) -> Scene {
@@ -191,6 +194,9 @@ fn prepare(l: &Layout, root: &Path, start: Start) -> Scene {
             Start::RecordThenOutputDeleted => {
                 std::fs::remove_file(root.join(l.writes[0])).unwrap();
             }
+            Start::RecordThenInputCommandBroken => {
+                std::fs::rename(root.join("v.txt"), root.join("v.txt.away")).unwrap();
+            }
             Start::NoRecord => {}
         }
     }
@@ -200,10 +206,13 @@ fn prepare(l: &Layout, root: &Path, start: Start) -> Scene {
 /// (A) crash points x outcomes x starting states
 pub fn crash_points(rep: &mut Report) {
     let ls: Vec<Layout> = layouts().into_iter().filter(|l| ["file-path", "directory", "file+cmd", "cmd-only"].contains(&l.name)).collect();
-    let starts = [Start::NoRecord, Start::RecordThenInputChanged, Start::RecordThenOutputDeleted];
+    let starts = [Start::NoRecord, Start::RecordThenInputChanged, Start::RecordThenOutputDeleted, Start::RecordThenInputCommandBroken];
     let mut jobs: Vec<(Layout, Start)> = vec![];
     for l in &ls {
         for s in starts {
+            if s == Start::RecordThenInputCommandBroken && !["file+cmd", "cmd-only"].contains(&l.name) {
+                continue;
+            }
             jobs.push((l.clone(), s));
         }
     }
@@ -242,10 +251,17 @@ pub fn crash_points(rep: &mut Report) {
             cases.push((Crash::Never, oc, None));
         }
         for (ci, (crash, outcome, limit)) in cases.iter().enumerate() {
+            if *start == Start::RecordThenInputCommandBroken && *crash == Crash::AtPoint(points::DECIDED) {
+                // nothing has been discarded yet and the tree is put back as recorded: skipping is right then (C03)
+                continue;
+            }
             let root = scratch(&format!("c05-a-{:02}-{}-{:04}", tagl, tags, ci));
             let sc = prepare(l, &root, *start);
             let had_record = sc.rec.is_file();
             let end = run_cycle(&sc, l, *crash, *outcome, *limit);
+            if *start == Start::RecordThenInputCommandBroken {
+                std::fs::rename(root.join("v.txt.away"), root.join("v.txt")).unwrap();
+            }
             let rec_after = record_bytes(&sc).map(|b| b.len());
             // the cycle must have decided to run (scope of the property); otherwise the set-up is wrong
             let decided_to_run = match &end {
